@@ -1,3 +1,4 @@
+import Swat4.Lemmas.FactsExtra10
 import Swat4.Lemmas.StoreConsistent
 import Swat4.Lemmas.StoreDrv
 import Swat4.Lemmas.LockTTL
